@@ -40,7 +40,9 @@ def generic_payload(t):
         if len(s) <= 2 and s[:1].isupper():
             return True
         if 'closure' in s or '{closure' in s:
-            return True
+            # a closure written in this crate is crate code: whether *it* runs user code is decided on its own body (may_user
+            # links every closure to the function it is written in); only a type parameter brings in foreign code
+            continue
         for tok in ('<T>', '<T,', ' T>', '[T]', '<I>', '<F>', '<I,', 'I::', 'T::', '<E>', ' F>', '&mut F', '&mut I', '&I', '&F'):
             if tok in s:
                 return True
@@ -173,6 +175,13 @@ class PanicSafety:
         for e in r.events:
             if e.kind == 'store' and e.lv and e.lv[0] == 'fld' and root_param(e.lv) == 1:
                 res.append(classify_store(I, e))
+            elif e.kind == 'call' and any(f[0].startswith('Bump::') or 'raw_vec::RawVec' in f[0] or f[0].startswith('alloc::') or f[0].startswith('<&') for f in e.stack):
+                continue        # the allocator moving a whole buffer (realloc) is not an element move inside the container
+            elif e.kind == 'call' and e.callee in HOLE_CALLS and not (HOLE_CALLS[e.callee] == 'read' and reads_self_field(e)):
+                # the callee moves elements itself (Drain::move_tail's memmove): the cursor update that follows commits that move
+                res.append(('HOLE', HOLE_CALLS[e.callee], None))
+            elif e.kind == 'call' and e.callee in WRITE_CALLS:
+                res.append(('WRITE', 'ptr::write', None))
         return res
 
     # ---- per function
@@ -235,7 +244,7 @@ class PanicSafety:
                             a = e.args[argi - 1] if argi - 1 < len(e.args) else None
                             k = classify_value(I, e, a, fld, e.args[0] if e.args else None)
                             add(e.block, (k, e, fld))
-                        elif kind in ('UP', 'DOWN', 'ZERO', 'SET'):
+                        elif kind in ('UP', 'DOWN', 'ZERO', 'SET', 'HOLE', 'WRITE'):
                             add(e.block, (kind, e, fld))
             elif e.kind == 'usercall':
                 add(e.block, ('U', e, 'callable parameter'))
@@ -367,8 +376,13 @@ def classify_store(I, e):
         return ('OTHER', fld, None)
     if v[0] in ('cmp', 'not') or (v[0] == 'phi' and all(is_c(x) or x[0] in ('cmp', 'not') for _, x in v[2])):
         return ('FLAG', fld, None)
+    if fld.startswith('Bump.') or fld.startswith('ChunkFooter.') or '::Bump.' in fld or '::ChunkFooter.' in fld:
+        # the arena's own bookkeeping (finger, list head, counters) is not a container length or cursor: what this automaton
+        # tracks is which slots of a Vec / String / iterator are exposed while user code runs
+        return ('OTHER', fld, None)
     short = fld.split('.')[-1]
-    lengthy = short in ('len', 'local_len', 'idx', 'del', 'del_bytes', 'tail_start', 'tail_len', 'old_len', 'cap') or 'len' in short or 'idx' in short
+    # a capacity is not a length: growing or shrinking the buffer exposes nothing, so `cap` stores are not commits
+    lengthy = short in ('len', 'local_len', 'idx', 'del', 'del_bytes', 'tail_start', 'tail_len', 'old_len') or 'len' in short or 'idx' in short
     if is_c(v):
         if v[1] == 0 and lengthy:
             return ('ZERO', fld, None)
